@@ -35,6 +35,23 @@ CLAIMED = {
         'set (surviving ids, orientation, untouched element objects, merges only within short classes, no non-exempt short left when shorts are disjoint), solved and compared, '
         'and inputs/keep lists must be unchanged.',
    ref='DESIGN.md §6 C16', technique='TLA+ spec + TLC bounded model checking; spec->code scenario replay with relational postcondition'),
+ 'C02': dict(
+   text='The TLA+ module Circuit gives, per component kind, the branch element at angular frequency w (jwL, 1/(jwC), A*exp(j*phi) at the source\'s own frequency, '
+        'short/open otherwise); TLC solves every circuit of the bounded generator exactly at every analysis frequency (0, source frequencies, others, just inside/outside '
+        'the resolution), checks the circuit equations, capacitor-open / inductor-short at w = 0 and power signs on the model, and every scenario is replayed through '
+        'DCSolution and ComplexSolution (peak and RMS): all potentials, voltages, currents under adversarial names, phase turns and decade units.',
+   ref='DESIGN.md §6 C02', technique='TLA+ spec + TLC bounded model checking; spec->code scenario replay'),
+ 'C05': dict(
+   text='Tellegen\'s theorem and the sign rules (resistor P = |I|^2 R >= 0, inductor Q >= 0, capacitor Q <= 0) are invariants TLC checks on every network / circuit of '
+        'the bounded models at every frequency; every get_power of the library (network solution, DC, peak, RMS, time domain) is compared with the specification\'s '
+        'V*conj(I), half of it, V*I and v(t)*i(t).',
+   ref='DESIGN.md §6 C05', technique='TLA+ spec + TLC bounded model checking; spec->code scenario replay'),
+ 'C07': dict(
+   text='ElementAt / NetAt of the TLA+ module Circuit define the one branch each component contributes at w; TLC enumerates every component constructor x parameter '
+        'values (incl. 0) x frequency (own, other, near the resolution, harmonics, off-harmonic) x resolution x list position x ground placement, and each scenario is '
+        'replayed through transform_circuit / transform: branch list compared field by field (ids, order, terminals, immittance and source value electrically), '
+        'node_zero_label and Circuit.ground_node.',
+   ref='DESIGN.md §6 C07', technique='TLA+ spec + TLC exhaustive enumeration; spec->code scenario replay (translation validation against the specification)'),
 }
 
 PENDING_REASON = 'check not built yet in this round (planned: TLA+ model + conformance replay, see DESIGN.md §6); no claim is made until it exists'
